@@ -172,8 +172,9 @@ func (e *Exec) propagateConsts(pc []*Term, goal *Term) ([]*Term, *Term) {
 		}
 		next := make([]*Term, 0, len(cur)+len(fresh))
 		seen := map[*Term]bool{}
+		memo := map[*Term]*Term{}
 		for _, f := range cur {
-			g := e.C.Subst(f, fresh)
+			g := e.C.SubstMemo(f, fresh, memo)
 			if g.IsTrue() || seen[g] {
 				continue
 			}
@@ -194,7 +195,7 @@ func (e *Exec) propagateConsts(pc []*Term, goal *Term) ([]*Term, *Term) {
 			next = append(next, d)
 		}
 		cur = next
-		goal = e.C.Subst(goal, fresh)
+		goal = e.C.SubstMemo(goal, fresh, memo)
 	}
 	return cur, goal
 }
